@@ -1617,8 +1617,15 @@ impl StorageEngine {
                             result.truncate(n);
                             result
                         } else {
-                            let n = (-count) as usize;
-                            let mut result = Vec::with_capacity(n);
+                            // |count| elements with repetition. The magnitude is taken without
+                            // overflow (i64::MIN), absurd counts are refused, and nothing is
+                            // reserved from the requested count alone.
+                            let n = count.unsigned_abs();
+                            if n > i32::MAX as u64 {
+                                return Err(FerrousError::Command(CommandError::Generic("value is out of range".to_string())));
+                            }
+                            let n = n as usize;
+                            let mut result = Vec::with_capacity(n.min(1024));
                             for _ in 0..n {
                                 if let Some(member) = members.choose(&mut rng) {
                                     result.push(member.clone());
